@@ -219,4 +219,9 @@ def dfs_workloads(profile, tier):
                             if exc == 'VBase' and pos != n - 1:
                                 continue
                             out.append((dict(wl, **{where: {str(pos): exc}}), k))
+                    if wl['kind'] == 'pf' and not wl.get('with_key'):
+                        # catching enabled: a listed type is dropped, every other type (also an IndexError raised
+                        # by the user function) still surfaces at its position
+                        for exc in ('VErrA', 'IndexError'):
+                            out.append((dict(wl, fn_fail={str(pos): exc}, catch='VErrA'), min(k, 1)))
     return out
